@@ -217,9 +217,14 @@ func satSet(c *Term) (*Term, *byteDom) {
 // ---- interval domain for wider signed variables: comparisons of one variable with a constant ----
 
 type intDom struct {
-	lo, hi int64
+	lo, hi int64 // in unsigned mode: values with the top bit flipped (order-preserving map of uint64 to int64)
 	holes  []int64
+	uns    bool // ordered comparisons seen so far were unsigned
+	w      int
+	bad    bool // signed and unsigned comparisons mixed in a way the interval cannot represent
 }
+
+const flip = -1 << 63
 
 func (d *intDom) empty() bool {
 	if d.lo > d.hi {
@@ -271,6 +276,12 @@ func intAtom(c *Term) (*Term, string, int64, bool, bool) {
 		rel = map[bool]string{true: "lt", false: "gt"}[varLeft]
 	case "bvsle":
 		rel = map[bool]string{true: "le", false: "ge"}[varLeft]
+	case "bvult":
+		rel = map[bool]string{true: "ult", false: "ugt"}[varLeft]
+		kv = int64(k.K)
+	case "bvule":
+		rel = map[bool]string{true: "ule", false: "uge"}[varLeft]
+		kv = int64(k.K)
 	default:
 		return nil, "", 0, false, false
 	}
@@ -279,14 +290,56 @@ func intAtom(c *Term) (*Term, string, int64, bool, bool) {
 
 func fullInt(w int) *intDom {
 	if w >= 64 {
-		return &intDom{lo: -1 << 63, hi: 1<<63 - 1}
+		return &intDom{lo: -1 << 63, hi: 1<<63 - 1, w: 64}
 	}
-	return &intDom{lo: -(int64(1) << uint(w-1)), hi: int64(1)<<uint(w-1) - 1}
+	return &intDom{lo: -(int64(1) << uint(w-1)), hi: int64(1)<<uint(w-1) - 1, w: w}
+}
+
+// toUnsigned re-expresses a signed-mode domain in unsigned mode when the interval does not straddle the sign boundary
+func (d *intDom) toUnsigned() *intDom {
+	full := fullInt(d.w)
+	n := &intDom{uns: true, w: d.w}
+	conv := func(x int64) int64 { // signed value → unsigned key
+		u := uint64(x) & mask(d.w)
+		return int64(u) ^ flip
+	}
+	switch {
+	case d.lo == full.lo && d.hi == full.hi:
+		n.lo, n.hi = conv(0), int64(mask(d.w))^flip
+	case d.lo >= 0 || d.hi < 0:
+		n.lo, n.hi = conv(d.lo), conv(d.hi)
+	default:
+		n.bad = true
+		return n
+	}
+	for _, h := range d.holes {
+		n.holes = append(n.holes, conv(h))
+	}
+	return n
 }
 
 // restrict d by (v rel k) being truth
 func (d *intDom) restrict(rel string, k int64, truth bool) *intDom {
-	n := &intDom{lo: d.lo, hi: d.hi, holes: d.holes}
+	if d.bad {
+		return d
+	}
+	if strings.HasPrefix(rel, "u") {
+		if !d.uns {
+			d = d.toUnsigned()
+			if d.bad {
+				return d
+			}
+		}
+		rel = rel[1:]
+		k = int64(uint64(k)&mask(d.w)) ^ flip
+	} else if d.uns {
+		if rel == "eq" {
+			k = int64(uint64(k)&mask(d.w)) ^ flip
+		} else {
+			return &intDom{bad: true, w: d.w} // signed comparison on an unsigned-mode domain
+		}
+	}
+	n := &intDom{lo: d.lo, hi: d.hi, holes: d.holes, uns: d.uns, w: d.w}
 	if !truth {
 		switch rel {
 		case "lt":
@@ -421,8 +474,12 @@ func (e *Explorer) noteDomain(c *Term) {
 		if cur == nil {
 			cur = fullInt(v.W)
 		}
-		e.idom[v.ID] = cur.restrict(rel, k, !neg)
-		return
+		nd := cur.restrict(rel, k, !neg)
+		if !nd.bad {
+			e.idom[v.ID] = nd
+			return
+		}
+		// falls through: the variable becomes tangled
 	}
 	// any other conjunct entangles its variables: domain reasoning is no longer complete for them
 	if qstat {
@@ -452,7 +509,11 @@ func (e *Explorer) domainDecide(c *Term) (bool, bool, bool) {
 		if cur == nil {
 			cur = fullInt(v.W)
 		}
-		return !cur.restrict(rel, k, !neg).empty(), !cur.restrict(rel, k, neg).empty(), true
+		dt, df := cur.restrict(rel, k, !neg), cur.restrict(rel, k, neg)
+		if dt.bad || df.bad {
+			return false, false, false
+		}
+		return !dt.empty(), !df.empty(), true
 	}
 	v, d := satSet(c)
 	if v == nil || e.tangled[v.ID] {
